@@ -35,6 +35,9 @@ CHECKS.update({
  "C18": ("fault_enumeration","closer fired from inside every hook point x occurrence of a mixed workload + completion monitor",
    "A mixed workload (concurrent calls, held call, multi-frame response, streams, a cancelled call and subscription, a cut with a refused redial, calls in the reconnect window, work after the reconnect) is run once per (client-side hook point, occurrence); the closer is fired asynchronously from inside that hook. Then: the closer returns, every outstanding call returned, 20 later calls return errors, every client channel is closed, and no redial hook event or proxy accept is sequenced after the closer's return; http/custom closers during calls in progress must not disturb them.",
    "Instants are the hook points (21 points x up to 12 occurrences); 8 s grace.","2/C18"),
+ "C15": ("fault_enumeration","end-of-connection cause enumeration + captured-context monitor + labelled goroutine-profile leak oracle",
+   "End causes {client closer, FIN, RST, server-side context cancel} x work in progress {held unary, held notification, streaming, handler blocked in a reverse call, all, none} x handler reaction {at once, after 50 ms, 10 B, 1 MiB result} x inbound traffic {idle, notification flood}, with hook delays at ws.exit.* / h.lazy.acquire. Every handler context captured for the connection must be done; after the handlers returned, the goroutine profile is filtered by the pprof labels the library attaches (jrpc-mode=wsserver, jrpc-uuid) and any goroutine of a connection created by the scenario that survives the grace is a leak (stack = witness).",
+   "Relies on the library's own pprof labels (blind -> inconclusive, never 'held'); 8 s grace.","2/C15"),
 })
 NA={}
 def main():
